@@ -576,8 +576,9 @@ impl Filter<FilterValid> {
                 }
                 .map(|f| {
                     match idxmeta {
-                        // Do a proper optimise if we have idxmeta.
-                        Some(_) => f.optimise(),
+                        // Do a proper optimise if we have idxmeta. Before that, give every AndNot
+                        // that has no positive sibling a candidate set to exclude from.
+                        Some(idx) => f.anchor_andnot(false, &idx.idxkeys).optimise(),
                         // Only do this if we don't have idxmeta.
                         None => f.fast_optimise(),
                     }
@@ -1768,6 +1769,56 @@ impl FilterResolved {
                 }
             }
             f => f.clone(),
+        }
+    }
+
+    /// The backend can only evaluate an `AndNot` as an exclusion from the candidates of a
+    /// positive term of the same `And`. An `AndNot` at the root, inside an `Or`, inside another
+    /// `AndNot`, or in an `And` made only of `AndNot` terms has no such term, and would be
+    /// evaluated as "matches nothing". Anchor these with `Pres(class)` - every entry has a
+    /// class - so that "everything except ..." is what gets evaluated.
+    fn anchor_andnot(self, has_positive_sibling: bool, idxmeta: &HashMap<IdxKey, IdxSlope>) -> Self {
+        let class_pres = || {
+            let idxkref = IdxKeyRef::new(Attribute::Class.as_ref(), &IndexType::Presence);
+            let idx = idxmeta
+                .get(&idxkref as &dyn IdxKeyToRef)
+                .copied()
+                .and_then(NonZeroU8::new);
+            FilterResolved::Pres(Attribute::Class, idx)
+        };
+        match self {
+            FilterResolved::AndNot(inner, sf) => {
+                let f = FilterResolved::AndNot(Box::new(inner.anchor_andnot(false, idxmeta)), sf);
+                if has_positive_sibling {
+                    f
+                } else {
+                    FilterResolved::And(vec![class_pres(), f], None)
+                }
+            }
+            FilterResolved::And(l, sf) => {
+                let has_positive = l.iter().any(|f| !f.is_andnot());
+                let mut l: Vec<_> = l
+                    .into_iter()
+                    .map(|f| f.anchor_andnot(true, idxmeta))
+                    .collect();
+                if !has_positive && !l.is_empty() {
+                    l.insert(0, class_pres());
+                }
+                FilterResolved::And(l, sf)
+            }
+            FilterResolved::Or(l, sf) => FilterResolved::Or(
+                l.into_iter()
+                    .map(|f| f.anchor_andnot(false, idxmeta))
+                    .collect(),
+                sf,
+            ),
+            FilterResolved::Inclusion(l, sf) => FilterResolved::Inclusion(
+                l.into_iter()
+                    .map(|f| f.anchor_andnot(false, idxmeta))
+                    .collect(),
+                sf,
+            ),
+            f => f,
         }
     }
 
